@@ -2,6 +2,8 @@
 import Kitoken.Driver.Def
 import Kitoken.Spec.Process
 import Kitoken.Spec.Decoder
+import Kitoken.Spec.Pieces
+import Kitoken.Spec.UnigramCheck
 namespace Kitoken.Driver
 
 open Kitoken Std
@@ -174,6 +176,38 @@ def handleEnc (st : State) (args : List String) (_impl : List String) : String :
     match slot.toNat?.bind (st.toks[·]?), parseBool s, parseHex text with
     | some tk, some s, some t =>
       s!"{showOutIds (tk.encode (mkExt tab) t s)} || HOLDS-NA"
+    | _, _, _ => "BAD-OP"
+  | _ => "BAD-OP"
+
+/-- One pre-tokenized piece on a tokenizer without normalization, split and specials:
+    model answer = the whole pipeline; verdict = the piece-level specification of the encoder kind. -/
+def handlePiece (st : State) (args : List String) (impl : List String) : String :=
+  let (args, tab) := splitOracle args
+  match args with
+  | [slot, s, text] =>
+    match slot.toNat?.bind (st.toks[·]?), parseBool s, parseHex text with
+    | some tk, some s, some t =>
+      let model := showOutIds (tk.encode (mkExt tab) t s)
+      let implStr := " ".intercalate impl
+      let verdict :=
+        if t.isEmpty then (if implStr == "OK -" then "HOLDS" else "FAILS empty")
+        else match tk.encoder with
+        | .bpe c =>
+          let spec := showResIds (Spec.bpePieceSpec c t)
+          if spec == implStr then "HOLDS" else s!"FAILS bpe-spec {spec}"
+        | .wordpiece c =>
+          let spec := showResIds (Spec.wordSpec c t)
+          if spec == implStr then "HOLDS" else s!"FAILS greedy-spec {spec}"
+        | .unigram c =>
+          match parseImplIds impl with
+          | some (.ok ids) =>
+            (match Spec.uniCheck c tk.dec.vocab t ids with
+              | .holds => "HOLDS"
+              | .notApplicable _ => "HOLDS-NA"
+              | .fails why => s!"FAILS {why}")
+          | some (.err _) => "HOLDS-NA"
+          | _ => "FAILS panic"
+      s!"{model} || {verdict}"
     | _, _, _ => "BAD-OP"
   | _ => "BAD-OP"
 
